@@ -364,3 +364,41 @@ Definition fault_possible (tmp state : fname) (sk : list sstep) (bs : list bytes
              Bool.eqb err (snd r) &&
              obs_eqb o (observe tmp state (s_fs (run_steps torn_step tmp (fst r) (init fs0) (List.length (fst r)) 0))))
           (NoFault :: fault_points_from (compile tmp None bs sk) 0).
+
+(* ---------------------------------------------------------------- histories: several saves in ONE directory
+   A history is a list of saves, each with the temporary name CreateTemp picks for it, the bindings of that session,
+   the fault injected (or not) and the point at which the process dies (or not: k beyond the calls).  Whatever an
+   aborted save leaves behind (its temporary file) is part of the directory the next save starts from. *)
+Record save : Type := mksave { sv_tmp : fname; sv_bs : list bytes; sv_fault : fault; sv_k : nat; sv_torn : nat }.
+
+Definition run_save (ce : fname -> step -> nat -> st -> st) (sk : list sstep) (f : fs) (s : save) : fs :=
+  after ce (sv_tmp s) sk (sv_bs s) (sv_fault s) (sv_k s) (sv_torn s) f.
+
+Fixpoint run_history (ce : fname -> step -> nat -> st -> st) (sk : list sstep) (f : fs) (h : list save) : fs :=
+  match h with
+  | [] => f
+  | s :: h' => run_history ce sk (run_save ce sk f s) h'
+  end.
+
+(* the fault hits one of the calls of the save (CreateTemp, a write, the rename) *)
+Definition fault_in_range (s : save) : bool :=
+  match sv_fault s with
+  | NoFault => false
+  | FaultAt i _ => Nat.ltb i (List.length (sv_bs s) + 2)
+  end.
+
+(* the save ran to the end of its rename: no call failed and the process survived all n+2 calls *)
+Definition committed (s : save) : bool :=
+  negb (fault_in_range s) && Nat.leb (List.length (sv_bs s) + 2) (sv_k s).
+
+(* the process died while the rename was in progress (the only instant at which the outcome is not determined) *)
+Definition in_rename (s : save) : bool :=
+  negb (fault_in_range s) && Nat.eqb (sv_k s) (List.length (sv_bs s) + 1).
+
+(* contents of the state file after a history none of whose saves died inside its rename:
+   what the LAST committed save wrote, or the original file if none committed *)
+Fixpoint last_committed (old : option bytes) (h : list save) : option bytes :=
+  match h with
+  | [] => old
+  | s :: h' => last_committed (if committed s then Some (List.concat (sv_bs s)) else old) h'
+  end.
